@@ -1,0 +1,24 @@
+//! Verification hooks (only compiled with feature `verif-hooks`).
+#![allow(missing_docs, clippy::missing_panics_doc, clippy::missing_errors_doc, clippy::type_complexity)]
+
+use std::{path::Path, sync::RwLock};
+
+use rustic_core::RusticResult;
+
+type PrePublish = Box<dyn Fn(&Path, &Path) -> RusticResult<()> + Send + Sync>;
+
+static PRE_PUBLISH: RwLock<Option<PrePublish>> = RwLock::new(None);
+
+/// Arm (Some) or disarm (None) the callback invoked in `LocalBackend::write_bytes` after the
+/// temporary file has been written and synced and before it is renamed to its final name. The
+/// callback may inspect the directory; returning an error simulates an interruption at this point.
+pub fn set_pre_publish(f: Option<PrePublish>) {
+    *PRE_PUBLISH.write().unwrap() = f;
+}
+
+pub(crate) fn pre_publish(tmp: &Path, target: &Path) -> RusticResult<()> {
+    if let Some(f) = PRE_PUBLISH.read().unwrap().as_ref() {
+        f(tmp, target)?;
+    }
+    Ok(())
+}
